@@ -15,9 +15,7 @@ function are executed with an instrumented body and compared with
 """
 from __future__ import annotations
 
-import copy
 import inspect
-import typing
 
 from .. import c16_gen as P16, c17_gen as P, snap as S
 from ..evidence import Run, canon_hash
@@ -195,9 +193,6 @@ def gen_scenario(rng):
             scn["out"] = out
     elif rng.random() < 0.3:
         plan["shape"] = rng.choice(["scalar", "tuple", "dict"])
-    if deco == "check_output":
-        # the input is not validated: make the output source interesting
-        pass
     if is_ct:
         r = rng.random()
         scn["df_annotation"] = ("plain" if r < 0.6 else "optional" if r < 0.8
